@@ -1,8 +1,8 @@
 /-
   Model driver for C01: the slab checker applied to the fill tessellator's real output.
   `CHECK <id> chk_fill <rule> <mode> <delta> <nE> … <nT> …`
-  `CASE <id> sweep:32 …` the model of the sweep itself (`Drive/Sweep.lean`), compared token by token
-  with the real tessellator's complete output.
+  `CASE <id> sweep:32 …` / `CASE <id> sweepc:32 …` the model of the sweep itself on polygonal / curved
+  input (`Drive/Sweep.lean`), compared token by token with the real tessellator's complete output.
 -/
 import LyonVerif.Drive.Common
 import LyonVerif.Drive.SlabIO
@@ -13,7 +13,7 @@ open Lyon Lyon.Drive
 
 def families : List Family := [
   Family.plain "chk_fill" (fun v => SlabIO.handle "fill" false v 0) ]
-  ++ Lyon.Drive.Sweep.families   -- `sweep:32`: the sweep-line tessellator model itself
+  ++ Lyon.Drive.Sweep.families   -- `sweep:32`, `sweepc:32`: the sweep-line tessellator model itself
 
 end Lyon.Drive.C01
 
